@@ -23,6 +23,8 @@ Trans3 == {<<1, -2, 3>>, <<0, 0, 0>>, <<3, -5, 7>>, <<-40, 24, 12>>}
 Calls ==
          \* j = 1: the same translation times a huge power of two (2^121 in f32, 2^1017 in f64): any finite translation is in the domain
          [kind : {"srt3"}, seed : Seeds3, sg : Signs3, mag : Mags3, t : Trans3, j : {0, 1}, dk : {0}]
+         \* dk > 0: the same off the grid (angles shifted, scales away from the powers of two): round trip and mutual agreement only
+    \cup [kind : {"srt3"}, seed : Seeds3, sg : Signs3, mag : Mags3, t : {<<3, -5, 7>>}, j : {0}, dk : {20}]
     \cup [kind : {"srt2"}, seed : {<<0, 0, 0>>}, sg : {<<a, b, 0>> : a, b \in {0, 1}}, mag : Mags3, t : {<<5, -7, 0>>, <<0, 0, 0>>, <<-48, 96, 0>>}, j : -3..4, dk : {0}]
          \* dk > 0: the angle j pi/4 + 2^-dk, just off the grid (the decomposed angle within 1e-5 .. 1e-8 of 0, +-pi/2 or pi, where an
          \* arccosine-based angle would be ill-conditioned): the harness checks these by the round trip alone
